@@ -231,6 +231,7 @@ func (e *Engine) cmdCheck(prop, tier, evid, known, replayDir string, replay bool
 		if fc.con != nil {
 			flt = tagFilter(fc.con.Tags, prop)
 		}
+		kept := 0
 		for _, ob := range fc.obls {
 			if ob.Clause != nil && len(ob.Clause.Tags) > 0 && !hasTag(ob.Clause.Tags, prop) {
 				continue
@@ -239,6 +240,11 @@ func (e *Engine) cmdCheck(prop, tier, evid, known, replayDir string, replay bool
 				continue
 			}
 			all = append(all, ob)
+			kept++
+		}
+		// a filtered membership that selects nothing would count the function for the property with no obligation
+		if flt != "" && kept == 0 {
+			e.toolErrors = append(e.toolErrors, fmt.Sprintf("%s: tag %s:%s selects none of its obligations", n, prop, flt))
 		}
 		// vacuity guard: the assumptions of the function (preconditions, callee postconditions, invariants) are consistent
 		all = append(all, fc.canary())
